@@ -773,10 +773,316 @@ def run_mgr(case, lazy):
     raise ValueError(m)
 
 
+# ------------------------------------------------------------------------------------ family: mutate (copies × in-place operations)
+#
+# One case = a small script over named objects: "o" is the original (DataArray / Dataset / Variable / DataTree / the raw
+# array), every other name is introduced by a `copy` or a `derive` step.  Steps (plain dicts):
+#   {"do": "copy",   "src": n, "dst": m, "kind": <COPIES key>}
+#   {"do": "mut",    "on": n, "how": <MUTS key>, "var": <variable of a Dataset / coord of a DataArray or None>, …params}
+#   {"do": "derive", "src": n, "dst": m, "how": <DERIVES key>}      an expression captured BEFORE later mutations
+# After the script EVERY named object is read (case["read"]) and compared with the NumPy-backed run of the same script,
+# so a mutation of a copy that leaks into the original (or the reverse, or into a derived expression) shows up.
+
+MUT_DIMS = {"u": ("x", "y"), "u2": ("x", "y"), "v": ("x",), "w": ("y", "x"), "h": ("x",)}
+
+
+def mut_build(case, lazy):
+    rng = np.random.default_rng(case["data_seed"])
+    nx, ny = case["sizes"]["x"], case["sizes"]["y"]
+    ch = case["chunks"]
+    cx = {"x": np.arange(nx), "y": np.arange(ny) * 10}
+
+    def mk(name):
+        dims = MUT_DIMS[name]
+        d = xr.DataArray(ivals(rng, [case["sizes"][k] for k in dims]), dims=dims, coords={k: cx[k] for k in dims}, name=name)
+        return d.chunk({k: tochunk(ch[k]) for k in dims}) if lazy else d
+
+    u, v, w, h = mk("u"), mk("v"), mk("w"), mk("h")
+    kind = case["obj"]
+    if kind == "dataarray":
+        return u.assign_coords(h=h.variable)          # h: a chunked non-index coordinate
+    if kind == "variable":
+        return u.variable
+    if kind == "array":
+        return u.data
+    ds = xr.Dataset({"u": u, "v": v, "w": w}).assign_coords(h=h.variable)
+    if case.get("alias"):
+        ds["u2"] = ds["u"]                               # the same array under two names
+    if kind == "datatree":
+        return xr.DataTree.from_dict({"/": ds[["u", "v"]], "/child": ds[["w"] + (["u2"] if case.get("alias") else [])]})
+    return ds
+
+
+def _redata(src, f):
+    """a copy of src whose arrays are f(array) -- the array-level copy protocol under an xarray object"""
+    if isinstance(src, xr.Dataset):
+        return src.copy(data={k: f(src[k].data) for k in src.data_vars})
+    if isinstance(src, (xr.DataArray, xr.Variable)):
+        return src.copy(data=f(src.data))
+    raise TypeError("redata")
+
+
+def _loaded(c):
+    c.load()
+    return c
+
+
+def _pickle(s):
+    import pickle
+    return pickle.loads(pickle.dumps(s))
+
+
+def _copymod():
+    import copy
+    return copy
+
+
+COPIES = {
+    "copy_default": lambda s: s.copy(),
+    "copy_deep": lambda s: s.copy(deep=True),
+    "copy_shallow": lambda s: s.copy(deep=False),
+    "copy_copy": lambda s: _copymod().copy(s),
+    "copy_deepcopy": lambda s: _copymod().deepcopy(s),
+    "deepcopy_in_container": lambda s: _copymod().deepcopy({"k": [s, 1]})["k"][0],
+    "pickle": _pickle,
+    "deep_load": lambda s: _loaded(s.copy(deep=True)),
+    "shallow_load": lambda s: _loaded(s.copy(deep=False)),
+    "deep_persist": lambda s: s.copy(deep=True).persist(),
+    "deep_of_shallow": lambda s: s.copy(deep=False).copy(deep=True),
+    "deepcopy_data": lambda s: _redata(s, lambda a: _copymod().deepcopy(a)),
+    "copycopy_data": lambda s: _redata(s, lambda a: _copymod().copy(a)),
+    "copymethod_data": lambda s: _redata(s, lambda a: a.copy()),
+    # raw arrays only
+    "arr_copy_method": lambda s: s.copy(),
+}
+
+
+def _dec(k):
+    if isinstance(k, dict):
+        if "s" in k:
+            return slice(*k["s"])
+        if "l" in k:
+            return list(k["l"])
+        if "b" in k:
+            return np.array(k["b"], dtype=bool)
+    if k == "...":
+        return Ellipsis
+    return k
+
+
+def _key(step, positional=False):
+    k = step["key"]
+    if isinstance(k, dict) and not positional:
+        return {d: _dec(x) for d, x in k.items()}
+    if isinstance(k, list):
+        return tuple(_dec(x) for x in k)
+    return _dec(k)
+
+
+def _value(step, sel, lazy):
+    """the assigned value: a scalar, or an array shaped like the selection `sel` (NumPy, Variable, DataArray, chunked)"""
+    val = step.get("val", {"kind": "scalar", "v": 99.0})
+    if val["kind"] == "scalar":
+        return val["v"]
+    shape = tuple(sel.shape)
+    arr = np.random.default_rng(val["seed"]).integers(20, 40, size=shape).astype("f8")
+    if val["kind"] == "array" or not hasattr(sel, "dims"):
+        if val["kind"] == "lazy" and lazy and arr.ndim:
+            return guess_chunkmanager(None).from_array(arr, chunks=tuple(max(1, s // 2) for s in shape))
+        return arr
+    out = xr.Variable(sel.dims, arr)
+    if val["kind"] == "lazy" and lazy and arr.ndim:
+        out = out.chunk({d: max(1, s // 2) for d, s in zip(sel.dims, shape)})
+    if val["kind"] == "dataarray" and isinstance(sel, xr.DataArray):
+        out = xr.DataArray(out, coords={d: sel.coords[d] for d in sel.dims if d in sel.coords})
+    return out
+
+
+def _other_like(t, step, lazy):
+    arr = np.random.default_rng(step["seed"]).integers(1, 5, size=tuple(t.shape)).astype("f8")
+    if isinstance(t, xr.DataArray):
+        o = xr.DataArray(arr, dims=t.dims, coords={d: t.coords[d] for d in t.dims})
+        return o.chunk({d: 2 for d in t.dims}) if lazy and step.get("lazy_other") else o
+    if isinstance(t, xr.Variable):
+        o = xr.Variable(t.dims, arr)
+        return o.chunk({d: 2 for d in t.dims}) if lazy and step.get("lazy_other") else o
+    return arr
+
+
+def _m_setitem_dict(t, st, lazy):
+    k = _key(st)
+    t[k] = _value(st, t.isel(k), lazy)
+
+
+def _m_setitem_pos(t, st, lazy):
+    k = _key(st, positional=True)
+    t[k] = _value(st, t[k], lazy)
+
+
+def _m_loc_dict(t, st, lazy):
+    k = _key(st)
+    t.loc[k] = _value(st, t.loc[k], lazy)
+
+
+def _m_var_setitem(t, st, lazy):
+    k = _key(st, positional=True)
+    v = t.variable
+    v[k] = _value(st, v[k], lazy)
+
+
+def _m_data_setitem(t, st, lazy):
+    k = _key(st, positional=True)
+    a = t.data if hasattr(t, "dims") else t
+    a[k] = _value(st, a[k], lazy)
+
+
+def _m_data_mask(t, st, lazy):
+    a = t.data if hasattr(t, "dims") else t
+    a[a > st["thr"]] = st.get("val", {}).get("v", 99.0)
+
+
+def _m_data_out(t, st, lazy):
+    a = t.data if hasattr(t, "dims") else t
+    np.add(a, st["k"], out=a)
+
+
+def _m_data_out_other(t, st, lazy):
+    a = t.data if hasattr(t, "dims") else t
+    np.multiply(a, _other_like(a, st, lazy), out=a)
+
+
+def _m_data_assign(t, st, lazy):
+    t.data = t.data * st["k"]
+
+
+def _m_values_assign(t, st, lazy):
+    t.values = np.random.default_rng(st["seed"]).integers(50, 60, size=tuple(t.shape)).astype("f8")
+
+
+MUTS = {
+    # ---- item assignment through xarray
+    "setitem_dict": _m_setitem_dict,
+    "setitem_pos": _m_setitem_pos,
+    "loc_dict": _m_loc_dict,
+    "var_setitem": _m_var_setitem,
+    # ---- item assignment / out= on the wrapped array itself
+    "data_setitem": _m_data_setitem,
+    "data_mask": _m_data_mask,
+    "data_out": _m_data_out,
+    "data_out_other": _m_data_out_other,
+    # ---- replacing the wrapped array
+    "data_assign": _m_data_assign,
+    "values_assign": _m_values_assign,
+}
+# augmented assignments rebind the name / the item, so they are executed by mut_apply itself
+AUGMENTED = {"iadd": operator.iadd, "isub": operator.isub, "imul": operator.imul, "itruediv": operator.itruediv,
+             "ipow": operator.ipow, "imod": operator.imod}
+
+
+def mut_apply(O, st, lazy):
+    obj = O[st["on"]]
+    how, var = st["how"], st.get("var")
+    node = st.get("node")
+    if node is not None:                                  # DataTree: address a node first
+        holder = obj[node]
+    else:
+        holder = obj
+    # ---- whole-object operations
+    if how == "ds_setitem_dict":
+        holder[_key(st)] = st["val"]["v"]
+        return
+    if how == "ds_loc":
+        holder.loc[_key(st)] = st["val"]["v"]
+        return
+    if how == "ds_assign_var":
+        holder[var] = holder[var] * st["k"]
+        return
+    if how == "ds_update":
+        holder.update({var: holder[var] + st["k"]})
+        return
+    if how == "ds_coord_assign":
+        holder.coords["h"] = ("x", np.random.default_rng(st["seed"]).integers(70, 80, size=holder.sizes["x"]).astype("f8"))
+        return
+    if how == "ds_where_assign":
+        holder[var] = holder[var].where(holder[var] <= st["thr"], st["k"])
+        return
+    if how == "ds_new_var":
+        holder["fresh"] = holder[var] * 0.0 + st["k"]
+        return
+    if how in AUGMENTED and var is None:
+        other = _other_like(obj, st, lazy) if st.get("other") and not isinstance(obj, (xr.Dataset, xr.DataTree)) else st["k"]
+        x = holder
+        x = AUGMENTED[how](x, other)
+        if node is None:
+            O[st["on"]] = x
+        return
+    # ---- operations on one variable / coordinate of the object
+    if var is None:
+        t = holder
+    elif isinstance(holder, xr.DataArray):
+        t = holder.coords[var]
+    else:
+        t = holder[var]
+    if how in AUGMENTED:
+        other = _other_like(t, st, lazy) if st.get("other") else st["k"]
+        if st.get("via_item") and not isinstance(holder, xr.DataArray):
+            holder[var] = AUGMENTED[how](holder[var], other)          # ds["u"] += k
+        else:
+            t = AUGMENTED[how](t, other)
+        return
+    MUTS[how](t, st, lazy)
+
+
+DERIVES = {
+    "add1": lambda s: s + 1.0,
+    "mul_self": lambda s: s * s,
+    "sum_y": lambda s: s.sum(1) if not hasattr(s, "dims") else s.sum("y"),
+    "neg": lambda s: -s,
+}
+
+
+def _rolled(o):
+    return o.rolling(x=2, min_periods=1).sum() if isinstance(o, (xr.DataArray, xr.Dataset)) else o
+
+
+MUT_READS = {
+    "values": lambda o: o,
+    "sum_x": lambda o: o.sum(0) if not hasattr(o, "dims") else (o.sum("x") if not isinstance(o, xr.DataTree) else o.sum("x")),
+    "mean_all": lambda o: o.mean(),
+    "cumsum_x": lambda o: np.cumsum(o, 0) if not hasattr(o, "dims") else (o.cumsum("x") if not isinstance(o, xr.DataTree) else o),
+    "rolling_x": _rolled,
+    "plus_other": lambda o: o * 2.0 - 1.0,
+}
+
+
+def run_mutate(case, lazy):
+    O = {"o": mut_build(case, lazy)}
+    for st in case["steps"]:
+        if st["do"] == "copy":
+            O[st["dst"]] = COPIES[st["kind"]](O[st["src"]])
+        elif st["do"] == "derive":
+            O[st["dst"]] = DERIVES[st["how"]](O[st["src"]])
+        else:
+            mut_apply(O, st, lazy)
+    rd = MUT_READS[case.get("read", "values")]
+    out = {}
+    for n in sorted(O):
+        out[n] = rd(O[n])
+    return out
+
+
 # ------------------------------------------------------------------------------------ main
 
-FAMILIES = {"dsload": run_dsload, "mapblocks": run_mapblocks, "ufunc": run_ufunc, "route": run_route, "mgr": run_mgr}
+FAMILIES = {"dsload": run_dsload, "mapblocks": run_mapblocks, "ufunc": run_ufunc, "route": run_route, "mgr": run_mgr,
+            "mutate": run_mutate}
 LOOSE_DIMS = {"mapblocks"}
+DIGEST = {"mutate"}          # families whose chunked results are also compared between the registered and the stock run
+
+
+def digest(c):
+    """canonical text of a canon() result (small integer-valued test data), to compare two chunked runs with each other"""
+    return json.dumps({k: [list(d), np.asarray(v).astype("f8").round(9).tolist() if np.asarray(v).dtype.kind in "fiub" else np.asarray(v).astype(str).tolist()]
+                       for k, (d, v) in sorted(c.items())})
 
 
 def one(case):
@@ -792,9 +1098,12 @@ def one(case):
         return {"verdict": "raises " + type(e).__name__ + ": " + str(e)[:200].replace("\n", " "), "calls": sorted(CALLS)}
     calls = sorted(CALLS)
     try:
-        return {"verdict": compare(want, got, dims_strict=case["fam"] not in LOOSE_DIMS), "calls": calls}
+        res = {"verdict": compare(want, got, dims_strict=case["fam"] not in LOOSE_DIMS), "calls": calls}
     except Exception as e:
         return {"verdict": "compare-error " + repr(e)[:160], "calls": calls}
+    if case["fam"] in DIGEST and res["verdict"] != "ok":
+        res["digest"] = digest(got)
+    return res
 
 
 def main():
